@@ -402,10 +402,15 @@ func runFIOC03(c *Ctx) {
 		n = 8000
 	}
 	for i := 0; i < n; i++ {
-		res := fioGenProg(r.Fork(), c.Thorough, 0)
+		mode := 0
+		if r.P(1, 4) {
+			mode = -1 // error-then-continue: operations which fail are followed by others and by Close
+		}
+		res := fioGenProg(r.Fork(), c.Thorough, mode)
 		text := res.prog.String()
 		c.Case(text, len(res.written) > 0)
 		fioStatProg(c, res)
+		fioStatCont(c, res)
 		if res.failedAt != -1 {
 			c.Stat("prog_failed")
 			continue
